@@ -15,6 +15,15 @@ CHECKS = {
                 note="Trusted: pbt/gdsmodel.py, pbt/geomkit.py. Centre lines/outlines of paths are taken from gdstk (transport "
                      "only; C07/C08 judge them). Arrays with off-grid lattices are compared with 1 grid unit tolerance.",
                 technique="property-based testing (Hypothesis) of a save/load round trip against a reference model"),
+    "C02": dict(level="exploration", design="4 C02",
+                text="Generated libraries in the OASIS domain (32-bit tags, detector-relevant shapes, circles at the detection "
+                     "tolerance, simple/outlined paths, labels, every repetition kind, typed user properties, references incl. to a "
+                     "cell outside the library) x all 256 flag bytes x deflate level 0-9 x circle tolerance, written, re-loaded and "
+                     "compared with a Python model of the expected library after expanding both sides to placements; signature "
+                     "validated against zlib.crc32 / byte sum; cycles 2-3 reproduce cycle 1.",
+                note="Trusted: pbt/oasmodel.py, pbt/repgen.py. Path centre lines/outlines are taken from gdstk (C07/C08 judge them). "
+                     "Writer-generated S_* standard properties are not compared (C04).",
+                technique="property-based testing (Hypothesis): write/read round trip against an expected-library model, options drawn over the full flag space"),
     "C03": dict(level="exploration", design="4 C03",
                 text="Differential against an independent, specification-derived GDSII codec (pbt/gdsref.py): (A) generated "
                      "abstract layouts are serialised with drawn encoder choice points and loaded by read_gds with a drawn target "
